@@ -144,15 +144,17 @@ Proof.
   exact (fun l => conj (dedup_NoDup l) (conj (dedup_In l) (conj (maxcount_ge l) (maxcount_attained l)))).
 Qed.
 
-(* ---- numeric parse: the empty cell is 0, the quote character is removed before parsing -------- *)
-Theorem C12_parse : forall s,
-  parse_cell s = match strip 34%N s with [] => Some (0 # 10)%Q | t => parse_float t end.
-Proof. exact parse_cell_unfold. Qed.
+(* ---- numeric parse: the parse of the source (stripped character and value of the empty cell read from
+   get_vals) is the parse of the property: the double quote is removed, the empty cell is 0, anything
+   else is read as a decimal numeral ------------------------------------------------------------------ *)
+Theorem C12_parse : forall s, oQeq (parse_cell s) (parse_cell_spec s).
+Proof. exact parse_cell_is_spec. Qed.
 
 Theorem C12_parse_quotes : forall s,
   parse_cell s = parse_cell (strip strip_char s)
-  /\ ((forall c, In c s -> c = 34%N) -> parse_cell s = Some (0 # 10)%Q).
-Proof. exact (fun s => conj (parse_cell_strip s) (parse_cell_only_quotes s)). Qed.
+  /\ parse_cell_spec [] = Some 0%Q
+  /\ ((forall c, In c s -> c = 34%N) -> parse_cell_spec s = Some 0%Q).
+Proof. exact (fun s => conj (parse_cell_strip s) (conj parse_cell_spec_empty (parse_cell_only_quotes s))). Qed.
 
 Theorem C12_parse_digits : forall c ds, forallb is_digit (c :: ds) = true ->
   parse_float (c :: ds) = Some (inject_Z (digits_val 0 (c :: ds))).
